@@ -117,7 +117,10 @@ func Acquire(ctx context.Context) (context.Context, ReleaseFunc) {
 	select {
 	case l.ch <- struct{}{}:
 	case <-ctx.Done():
-		return ctx, func() {}
+		// The context may be derived from one whose goroutine holds a token:
+		// hide that holder, or a TemporarilyRelease on the returned context
+		// would give away a token this goroutine does not have.
+		return context.WithValue(ctx, holderKey{}, &holder{l: l, status: released}), func() {}
 	}
 
 	h := &holder{
